@@ -97,8 +97,8 @@ inductive Code where
 /-- `IResult<Span, α>` + fuel exhaustion. -/
 inductive Res (α : Type) where
   | ok (a : α) (rest : Str)
-  /-- `Err(nom::Err::Error(Error { input: at, code }))` (the type grammar has no `Failure`) -/
-  | err (at : Str) (code : Code)
+  /-- `Err(nom::Err::Error(Error { input: pos, code }))` (the type grammar has no `Failure`) -/
+  | err (pos : Str) (code : Code)
   /-- fuel exhausted (never for fuel ≥ length + 1) -/
   | out
   deriving Inhabited
@@ -571,13 +571,13 @@ def seqSep : P Unit := fun i =>
 inductive Verdict where
   /-- `Ok(Program { statements: [TypeAlias a] })` -/
   | aliasOnly (a : Alias)
-  /-- `Err` with nom code `Eof` exactly at `at` (nothing can follow the alias there) -/
-  | aliasThenErr (a : Alias) (at : Str)
-  /-- a separator follows the alias; the next top-level item starts at `at`: `Ok` with first
-      statement `a`, or `Err` at or after `at` -/
-  | aliasThenMore (a : Alias) (at : Str)
+  /-- `Err` with nom code `Eof` exactly at `pos` (nothing can follow the alias there) -/
+  | aliasThenErr (a : Alias) (pos : Str)
+  /-- a separator follows the alias; the next top-level item starts at `pos`: `Ok` with first
+      statement `a`, or `Err` at or after `pos` -/
+  | aliasThenMore (a : Alias) (pos : Str)
   /-- `type_alias` fails at the start (`sequence` decides; the result never starts with an alias) -/
-  | notAlias (at : Str) (code : Code)
+  | notAlias (pos : Str) (code : Code)
   | fuelOut
 
 /-- `program` on a source whose first item is tried as a type alias. -/
@@ -610,13 +610,29 @@ def startsLower : Str → Bool
   | c :: _ => isLower c
   | [] => false
 
+/-- the parentheses of `render_type_atom`: around an intersection or a function type -/
+def atomWrap (t : Ty) (s : Str) : Str :=
+  match t with
+  | .inter _ | .func _ _ => '(' :: s ++ [')']
+  | _ => s
+
+/-- the parentheses of `render_union_member`: around a function type -/
+def memberWrap (t : Ty) (s : Str) : Str :=
+  match t with
+  | .func _ _ => '(' :: s ++ [')']
+  | _ => s
+
+/-- `<a, b>` for a non-empty list of rendered arguments, otherwise empty -/
+def angle (xs : List Str) : Str :=
+  if xs.isEmpty then [] else '<' :: sepBy [',', ' '] xs ++ ['>']
+
 mutual
 /-- `render_type` -/
 def printTy : Ty → Str
   | .prim .int => ['\'', 'i', 'n', 't']
   | .prim .bin => ['\'', 'b', 'i', 'n']
   | .prim .ref => ['\'', 'r', 'e', 'f']
-  | .ident n args => '\'' :: n ++ printArgs args
+  | .ident n args => '\'' :: n ++ angle (printTys args)
   | .tuple name fields isPartial =>
     -- `render_tuple_type`
     let nm : Str := match name with
@@ -625,58 +641,53 @@ def printTy : Ty → Str
     match fields with
     | [] => if isPartial then nm ++ ['(', ')'] else if name.isSome then nm else ['[', ']']
     | f :: fs =>
-      if isPartial then nm ++ '(' :: printFields f fs ++ [')']
-      else nm ++ '[' :: printFields f fs ++ [']']
-  | .func i o => '#' :: printAtom i ++ [' ', '-', '>', ' '] ++ printAtom o
-  | .union ts => '(' :: printMembers ts ++ [')']
-  | .inter ts => printInter ts
+      if isPartial then nm ++ '(' :: sepBy [',', ' '] (printFieldsL (f :: fs)) ++ [')']
+      else nm ++ '[' :: sepBy [',', ' '] (printFieldsL (f :: fs)) ++ [']']
+  | .func i o => '#' :: atomWrap i (printTy i) ++ [' ', '-', '>', ' '] ++ atomWrap o (printTy o)
+  | .union ts => '(' :: sepBy [' ', '|', ' '] (printMembersL ts) ++ [')']
+  | .inter ts => sepBy [' ', '&', ' '] (printAtomsL ts)
   | .cycle none => ['^']
   | .cycle (some n) => '^' :: natDigits n
-  | .proc (some a) none => '@' :: printAtom a
+  | .proc (some a) none => '@' :: atomWrap a (printTy a)
   | .proc none none => ['@']
-  | .proc none (some r) => ['(', '@', '-', '>', ' '] ++ printAtom r ++ [')']
-  | .proc (some a) (some r) => '(' :: '@' :: printAtom a ++ [' ', '-', '>', ' '] ++ printAtom r ++ [')']
+  | .proc none (some r) => ['(', '@', '-', '>', ' '] ++ atomWrap r (printTy r) ++ [')']
+  | .proc (some a) (some r) =>
+    '(' :: '@' :: atomWrap a (printTy a) ++ [' ', '-', '>', ' '] ++ atomWrap r (printTy r) ++ [')']
   | .resource n => '\\' :: n
   | .modty m mem args =>
-    '\'' :: '%' :: sepBy ['/'] m ++ (match mem with | some x => '.' :: x | none => []) ++ printArgs args
-  | .selfDefault args => '\'' :: printArgs args
-/-- `render_type_atom` -/
-def printAtom : Ty → Str
-  | .inter ts => '(' :: printInter ts ++ [')']
-  | .func i o => '(' :: '#' :: printAtom i ++ [' ', '-', '>', ' '] ++ printAtom o ++ [')']
-  | t => printTy t
-/-- `render_union_member` -/
-def printMember : Ty → Str
-  | .func i o => '(' :: '#' :: printAtom i ++ [' ', '-', '>', ' '] ++ printAtom o ++ [')']
-  | t => printTy t
-/-- members joined by `" | "` -/
-def printMembers : List Ty → Str
+    '\'' :: '%' :: sepBy ['/'] m ++ (match mem with | some x => '.' :: x | none => []) ++
+      angle (printTys args)
+  | .selfDefault args => '\'' :: angle (printTys args)
+/-- `.map(render_type)` -/
+def printTys : List Ty → List Str
   | [] => []
-  | [t] => printMember t
-  | t :: ts => printMember t ++ [' ', '|', ' '] ++ printMembers ts
-/-- members (atoms) joined by `" & "` -/
-def printInter : List Ty → Str
+  | t :: ts => printTy t :: printTys ts
+/-- `.map(render_type_atom)` -/
+def printAtomsL : List Ty → List Str
   | [] => []
-  | [t] => printAtom t
-  | t :: ts => printAtom t ++ [' ', '&', ' '] ++ printInter ts
-/-- `render_type_arguments` -/
-def printArgs : List Ty → Str
+  | t :: ts => atomWrap t (printTy t) :: printAtomsL ts
+/-- `.map(render_union_member)` -/
+def printMembersL : List Ty → List Str
   | [] => []
-  | t :: ts => '<' :: printTy t ++ printArgsTail ts
-def printArgsTail : List Ty → Str
-  | [] => ['>']
-  | t :: ts => ',' :: ' ' :: printTy t ++ printArgsTail ts
+  | t :: ts => memberWrap t (printTy t) :: printMembersL ts
 /-- `render_field_type` -/
 def printField : Field → Str
   | .field (some n) t => n ++ ':' :: ' ' :: printTy t
   | .field none t => printTy t
   | .spread none _ => ['.', '.', '.']
-  | .spread (some id) args => '.' :: '.' :: '.' :: '\'' :: id ++ printArgs args
-/-- fields joined by `", "` (non-empty list `f :: fs`) -/
-def printFields : Field → List Field → Str
-  | f, [] => printField f
-  | f, g :: gs => printField f ++ ',' :: ' ' :: printFields g gs
+  | .spread (some id) args => '.' :: '.' :: '.' :: '\'' :: id ++ angle (printTys args)
+/-- `.map(render_field_type)` -/
+def printFieldsL : List Field → List Str
+  | [] => []
+  | f :: fs => printField f :: printFieldsL fs
 end
+
+/-- `render_type_atom` -/
+def printAtom (t : Ty) : Str := atomWrap t (printTy t)
+/-- `render_union_member` -/
+def printMember (t : Ty) : Str := memberWrap t (printTy t)
+/-- the members of a union joined by `" | "` (a bare union, as on the right of an alias) -/
+def printMembers (ts : List Ty) : Str := sepBy [' ', '|', ' '] (printMembersL ts)
 
 /-- `render_type_parameters` -/
 def printParams (ps : List Str) : Str :=
@@ -719,5 +730,103 @@ def fmtAlias (a : Alias) : Str :=
       (QM.Text.collapseBlanks (QM.Text.print (Doc.join .hardline [aliasDoc a]) 100)) [] with
   | some out => out
   | none => []
+
+/-! ### Well-formed type ASTs (what the parser can produce) and the parser's canonical form -/
+
+/-- `identifier`'s language: `[a-z][A-Za-z0-9_]*\??!?` -/
+def isIdentStr : Str → Bool
+  | [] => false
+  | c :: r =>
+    isLower c &&
+      (let r1 := r.dropWhile isIdentBody
+       r1 = [] || r1 = ['?'] || r1 = ['!'] || r1 = ['?', '!'])
+
+/-- `tuple_name`'s language: `[A-Z][A-Za-z0-9_]*` -/
+def isTupleNameStr : Str → Bool
+  | [] => false
+  | c :: r => isUpper c && r.all isIdentBody
+
+def Field.isBareSpread : Field → Bool
+  | .spread none _ => true
+  | _ => false
+
+mutual
+/-- Decidable well-formedness: every AST returned by `parseType` satisfies it (`parseType_wf`), and
+    every AST satisfying it is re-read from its printed form (`roundtrip`). -/
+def Ty.wf : Ty → Bool
+  | .prim _ => true
+  | .tuple name fields isPartial =>
+    Field.wfList fields &&
+    (match name with
+     | none => !isPartial || fields.isEmpty || fields.any Field.isNamed
+     | some n =>
+       isTupleNameStr n ||
+         (isIdentStr n && !isPartial && fields.any Field.isSpread && !fields.any Field.isBareSpread))
+  | .func i o => i.wf && o.wf
+  | .union ts => decide (2 ≤ ts.length) && Ty.wfList ts
+  | .inter ts => decide (2 ≤ ts.length) && Ty.wfList ts
+  | .ident n args => isIdentStr n && Ty.wfList args
+  | .cycle none => true
+  | .cycle (some n) => decide (n < 2 ^ 64)
+  | .proc a r => Ty.wfOpt a && Ty.wfOpt r
+  | .resource n => isTupleNameStr n
+  | .modty m mem args =>
+    !m.isEmpty && m.all isIdentStr && (match mem with | some x => isIdentStr x | none => true) &&
+      Ty.wfList args
+  | .selfDefault args => Ty.wfList args
+def Ty.wfList : List Ty → Bool
+  | [] => true
+  | t :: ts => t.wf && Ty.wfList ts
+def Ty.wfOpt : Option Ty → Bool
+  | none => true
+  | some t => t.wf
+def Field.wf : Field → Bool
+  | .field none t => t.wf
+  | .field (some n) t => isIdentStr n && t.wf
+  | .spread none args => args.isEmpty
+  | .spread (some id) args => isIdentStr id && Ty.wfList args
+def Field.wfList : List Field → Bool
+  | [] => true
+  | f :: fs => f.wf && Field.wfList fs
+end
+
+/-- The well-formedness predicate of the round-trip theorems. -/
+def WFType (t : Ty) : Prop := t.wf = true
+instance (t : Ty) : Decidable (WFType t) := inferInstanceAs (Decidable (t.wf = true))
+
+mutual
+/-- The parser's canonical form: `Identifier { name: "int" | "bin" | "ref", arguments: [] }` (which
+    only `type_parameter`, `<'int>`, produces) prints as `'int` and is read back as the primitive. -/
+def Ty.normalize : Ty → Ty
+  | .prim p => .prim p
+  | .tuple name fields isPartial => .tuple name (Field.normalizeList fields) isPartial
+  | .func i o => .func i.normalize o.normalize
+  | .union ts => .union (Ty.normalizeList ts)
+  | .inter ts => .inter (Ty.normalizeList ts)
+  | .ident n [] => identifierToType n
+  | .ident n (a :: as) => .ident n (Ty.normalizeList (a :: as))
+  | .cycle l => .cycle l
+  | .proc a r => .proc (Ty.normalizeOpt a) (Ty.normalizeOpt r)
+  | .resource n => .resource n
+  | .modty m mem args => .modty m mem (Ty.normalizeList args)
+  | .selfDefault args => .selfDefault (Ty.normalizeList args)
+def Ty.normalizeList : List Ty → List Ty
+  | [] => []
+  | t :: ts => t.normalize :: Ty.normalizeList ts
+def Ty.normalizeOpt : Option Ty → Option Ty
+  | none => none
+  | some t => some t.normalize
+def Field.normalize : Field → Field
+  | .field n t => .field n t.normalize
+  | .spread id args => .spread id (Ty.normalizeList args)
+def Field.normalizeList : List Field → List Field
+  | [] => []
+  | f :: fs => f.normalize :: Field.normalizeList fs
+end
+
+def Alias.wf (a : Alias) : Bool :=
+  (match a.name with | some n => isIdentStr n | none => true) && a.params.all isIdentStr && a.ty.wf
+
+def Alias.normalize (a : Alias) : Alias := { a with ty := a.ty.normalize }
 
 end QM.Parse
